@@ -7,6 +7,7 @@ Only property theorems and non-vacuity examples live here; helper lemmas are in
 the pinned one is `pixelInfoOf`.
 -/
 import DdsModel.Proofs.Header
+import DdsModel.Proofs.HeaderTables
 import DdsModel.HeaderTables
 import DdsModel.Drv.C09
 namespace Dds.C09
@@ -143,5 +144,93 @@ theorem normalisation (pi : Header → Option PixelInfo) (opts : ParseOptions) (
     Header.fromRaw pi ParseOptions.strict (h.toRaw pi) = .ok h ∧
     Header.fromRaw pi (ParseOptions.newPermissive none) (h.toRaw pi) = .ok h :=
   header_roundtrip pi h (Header.fromRaw_WF hp hr hc)
+
+
+/-! ### Constructors and builder chains -/
+
+/-- `Header::new_image / new_volume / new_cube_map` never panic (every `Format` has a DXGI code
+or a DX9 pixel format) and, for `u32` arguments, the header they build and every header reached
+from it by a chain of `with_size / with_dimensions / with_mipmap_count / with_mipmaps` (with
+`u32` arguments) is well-formed; the chain panics only for the documented `with_mipmap_count(0)`.
+(`Dx10Header::with_array_size` etc. are not `Header` builder methods; they can build headers
+outside `WF`, e.g. a 3D texture with array size 2, which strict parsing rejects.) -/
+theorem constructed_wf (k : CtorKind) (w h d : Nat) (f : Format) (hw : w < U32) (hh : h < U32)
+    (hd : d < U32) (ops : List BuilderOp) (hops : ∀ op ∈ ops, op.InRange) :
+    ∃ h0, Header.new k w h d f = some h0 ∧ h0.WF ∧
+      (∀ h', h0.applyOps ops = some h' → h'.WF) ∧
+      (h0.applyOps ops = none → BuilderOp.withMipmapCount 0 ∈ ops) := by
+  obtain ⟨h0, e, hwf⟩ := Header.new_WF k w h d f hw hh hd
+  exact ⟨h0, e, hwf, fun h' ha => Header.applyOps_WF ops hwf hops ha, Header.applyOps_none ops⟩
+
+/-- ... hence they all survive serialisation (strict and permissive). -/
+theorem constructed_roundtrip (pi : Header → Option PixelInfo) (k : CtorKind) (w h d : Nat)
+    (f : Format) (hw : w < U32) (hh : h < U32) (hd : d < U32) (ops : List BuilderOp)
+    (hops : ∀ op ∈ ops, op.InRange) (h0 h' : Header) (e0 : Header.new k w h d f = some h0)
+    (e1 : h0.applyOps ops = some h') :
+    Header.fromRaw pi ParseOptions.strict (h'.toRaw pi) = .ok h' ∧
+    Header.fromRaw pi (ParseOptions.newPermissive none) (h'.toRaw pi) = .ok h' := by
+  obtain ⟨h0', e, _, hall, _⟩ := constructed_wf k w h d f hw hh hd ops hops
+  rw [e0] at e; cases e
+  exact header_roundtrip pi h' (hall h' e1)
+
+example : ∃ h', (Header.new .volume 16 9 5 .BC1_UNORM).bind
+    (·.applyOps [.withMipmaps, .withSize 7 300, .withMipmapCount 3]) = some h' := ⟨_, rfl⟩
+
+/-! ### DX9 <-> DX10 -/
+
+/-- The pinned DXGI table has exactly the codes `DxgiFormat::try_from` accepts (162 of them). -/
+theorem dxgi_table_complete :
+    (∀ c, c < 256 → (dxgiValid c = (dxgiRow? c).isSome)) ∧ dxgiRows.length = 162 ∧
+    (∀ c, dxgiValid c = true → c < 192) := by
+  refine ⟨fun c hc => ?_, by decide +kernel, fun c h => dxgiValid_lt h⟩
+  have hall : ((List.range 256).all fun c => dxgiValid c == (dxgiRow? c).isSome) = true := by
+    decide +kernel
+  rw [List.all_eq_true] at hall
+  simpa using hall c (List.mem_range.mpr hc)
+
+/-- `to_dx9`, when it exists, keeps width, height, depth and mip count, the pixel info
+(`PixelInfo::from_header`, i.e. the bytes-per-pixel / block shape) and — for 2D textures, cube
+maps and volumes — the data layout (same result or same error, for any pixel info).  A DX10
+*1D* texture becomes the DX9 2D texture of the same width x height: its layout is that of the
+header with `Texture2D` (it differs from the 1D layout unless height = 1).  Texture arrays
+(`array_size != 1`) and cube maps that are not 2D have no DX9 form. -/
+theorem dx_conversion_to_dx9 (x : Dx10Header) (y : Dx9Header) (hv : dxgiValid x.dxgiFormat = true)
+    (h : (Header.dx10 x).toDx9 = some y) :
+    y.width = x.width ∧ y.height = x.height ∧ y.depth = x.depth ∧ y.mipmapCount = x.mipmapCount ∧
+    x.arraySize = 1 ∧
+    pixelInfoOf (.dx9 y) = pixelInfoOf (.dx10 x) ∧
+    (∀ px, x.resourceDimension ≠ .tex1D →
+      layoutOf (Header.dx9 y).toLayoutHeader px = layoutOf (Header.dx10 x).toLayoutHeader px) ∧
+    (∀ px, layoutOf (Header.dx9 y).toLayoutHeader px =
+      layoutOf (Header.dx10 { x with resourceDimension :=
+        if x.resourceDimension = .tex1D then .tex2D else x.resourceDimension }).toLayoutHeader px) := by
+  have h' : x.toDx9 = some y := h
+  obtain ⟨e1, e2, e3, e4, e5, _, _, e6⟩ := Dx10Header.toDx9_shape h'
+  refine ⟨e1, e2, e3, e4, e5, ?_, ?_, fun px => Dx10Header.toDx9_layout h' px⟩
+  · rw [pixelInfoOf_dx9, toDx9Format_px hv e6]; rfl
+  · intro px h1
+    have := Dx10Header.toDx9_layout h' px
+    rw [if_neg h1] at this
+    exact this
+
+/-- `to_dx10`, when it exists, keeps width, height, depth, mip count and alpha mode, the pixel
+info, and the data layout (same result or same error, for any pixel info) — for every DX9
+header: plain, cube (all six faces; partial cubes have no DX10 form) and volume. -/
+theorem dx_conversion_to_dx10 (y : Dx9Header) (x : Dx10Header) (h : (Header.dx9 y).toDx10 = some x) :
+    x.width = y.width ∧ x.height = y.height ∧ x.depth = y.depth ∧ x.mipmapCount = y.mipmapCount ∧
+    x.arraySize = 1 ∧ x.alphaMode = y.alphaMode ∧
+    pixelInfoOf (.dx10 x) = pixelInfoOf (.dx9 y) ∧
+    (∀ px, layoutOf (Header.dx10 x).toLayoutHeader px = layoutOf (Header.dx9 y).toLayoutHeader px) := by
+  have h' : y.toDx10 = some x := h
+  obtain ⟨e1, e2, e3, e4, e5, e6, _, _, _, e7⟩ := Dx9Header.toDx10_shape h'
+  refine ⟨e1, e2, e3, e4, e5, e6, ?_, fun px => Dx9Header.toDx10_layout h' px⟩
+  rw [pixelInfoOf_dx9, ← toDx10_px e7]; rfl
+
+/-- converting a header to its own form is the identity -/
+theorem dx_conversion_self (x : Dx10Header) (y : Dx9Header) :
+    (Header.dx10 x).toDx10 = some x ∧ (Header.dx9 y).toDx9 = some y := ⟨rfl, rfl⟩
+
+example : (Header.dx10 (Dx10Header.new .cubeMap 8 8 0 71)).toDx9.isSome = true ∧
+    (Header.dx9 (Dx9Header.new .volume 8 8 3 (.fourCC FOURCC_DXT5))).toDx10.isSome = true := by decide
 
 end Dds.C09
